@@ -405,6 +405,8 @@ func (w *World) enabled() []core.WCmd {
 				}
 				add(wt, core.Cmd{A: "tick", I: in.idx})
 				add(p.StopW, core.Cmd{A: "stop", I: in.idx})
+			} else if !w.cacheParked(in) {
+				add(p.StopW, core.Cmd{A: "stop", I: in.idx, S: "mid-round"})
 			}
 			if w.crashes < p.MaxCrashes {
 				add(p.CrashW, core.Cmd{A: "crash", I: in.idx, L: w.drawSubset(in)})
@@ -681,8 +683,13 @@ func (w *World) exec(c core.Cmd) bool {
 		return true
 	case "stop":
 		in := w.inst(c.I)
-		if in == nil || in.state != stRunning || in.dead || w.instParked(in) != 0 || in.seqCancel == nil {
+		// also in the middle of a round: its in-flight operations then return the
+		// context error when they are released
+		if in == nil || in.state != stRunning || in.dead || w.cacheParked(in) || in.seqCancel == nil {
 			return false
+		}
+		if w.instParked(in) != 0 {
+			w.sim.Probe("stop.mid-round")
 		}
 		in.seqCancel()
 		w.sim.Probe("stop")
